@@ -152,6 +152,16 @@ Trailer(c) == CASE c = 0 -> <<>>
                 \* or BOOLEAN is not an optional component of the sequence any more
                 [] c = 9 -> <<128 + 5, 1, 120, 4, 1, 121>>           \* [5] "x", OCTET STRING "y"
                 [] c = 10 -> <<128 + 5, 1, 120, 1, 1, 255, 1, 1, 0>> \* [5] "x", BOOLEAN TRUE, BOOLEAN FALSE
+                \* high tag number form with ONE number octet (31..127): the octet after the identifier is a tag number below 128, which a
+                \* reader that mistakes it for a short-form length skips by the wrong distance
+                [] c = 11 -> <<128 + 31, 40, 1, 7>>                   \* [40] primitive, 1 octet
+                [] c = 12 -> <<128 + 31, 31, 0>>                      \* [31] primitive, empty (the smallest number that needs the form)
+                [] c = 13 -> <<128 + 32 + 31, 100, 3, 4, 1, 65>>      \* [100] constructed { OCTET STRING "A" }
+                \* [31] empty, then [5] with 40 content octets: 28 fillers followed by look-alikes of the defined optional components
+                \* ([7] of BindResponse, [10] [11] of ExtendedResponse, [1] of ExtendedRequest).  They are CONTENT of an unknown element; a
+                \* reader that skips the first element by a wrong distance (its number octet 31 taken for a length) resumes on them
+                [] c = 14 -> <<128 + 31, 31, 0, 128 + 5, 40>> \o [j \in 1..28 |-> 0]
+                                 \o <<128 + 7, 1, 97, 128 + 10, 1, 98, 128 + 11, 1, 99, 128 + 1, 1, 100>>
 HasNeed(r) == "need" \in DOMAIN r
 
 RECURSIVE EncAltNode(_, _, _), EncAltKids(_, _, _, _, _)
